@@ -239,7 +239,7 @@ for (st, pre), ops in CHAIN_CASES.items():
                 'chain state = stated start position %d after stated concrete prefix %d; push of any move of group %s, popped again if accepted' % (st, pre, ok),
                 'c13::chain_push_pop::<_, %d, %d, %d>' % (st, pre, code), 's13', 66,
                 bounds='pre-states from the stated finite sets START x PREFIX; BaseMoveChain<ArrRepeat>', props=['C13', 'C04'])
-for st, gk in [(0, 'pawn'), (0, 'king'), (0, 'castling'), (1, 'pspecial'), (4, 'king'), (5, 'knight')]:
+for st, gk in [(0, 'pawn'), (0, 'king'), (0, 'castling'), (1, 'pspecial'), (5, 'knight')]:
     reg('c13_chain_eq_s%d_%s' % (st, gk), 'C13', T, 3600, 28, 'two chains (same start / other clocks / no castling rights / another start), one symbolic push of group %s and outcome each' % gk,
         'c13::chain_eq::<_, %d, %d>' % (st, KGCODE[gk]), 's13', 66)
 for st, pre, gk in [(1, 3, None), (5, 3, None), (5, 4, None), (0, 3, None), (0, 1, 'king'), (2, 0, 'rook')]:
